@@ -221,7 +221,7 @@ def run(rep, tier, seed, tr_errors):
                 "get_elements (4 variants), class defaults and parse_cdc of candidate symbols; non-trivial = >= 2 successful registrations and a reset; distinct by op list")
     rep.trusted += ["Coq 8.16.1 kernel, vm_compute", "hand-written model coq/Circuit/Registry.v of registry.py (tie 2); _validate_impedances is an oracle boolean (consistent / inconsistent equation chosen by the harness)",
                     "module dictionaries are restored from a snapshot between cases by the harness (not by the library's own reset)"]
-    thm_ok, names, out = lib.check_props_file(rep, PROPS_FILE, expect=["C15_reset_is_fresh", "C15_builtins_preserved", "C15_bad_definitions_refused", "C15_builtin_symbols_tokenize_uniquely"])
+    thm_ok, names, out = lib.check_props_file(rep, PROPS_FILE, expect=["C15_reset_is_fresh", "C15_builtins_preserved", "C15_bad_definitions_refused", "C15_builtin_symbols_tokenize_uniquely", "C15_valid_symbols_tokenize_uniquely", "C15_builtin_symbols_are_valid"])
     cases = []
     # short exhaustive histories around the private/reset interaction
     tmpl = [("register", len(w.builtin), "Ud", 2.0, True, True), ("register", len(w.builtin), "Ud", 2.0, True, False),
